@@ -21,14 +21,14 @@ CONFIG = {
                      'ParseUnsignedInt / stof / stod',
                      'the Rat + rnd model of IEEE arithmetic (DmlcModel.StrToNum.Model.rnd)',
                      'oracle reference: glibc strtold/strtod/strtof on the decimal lexeme, __int128 arithmetic'],
-    'partial': ['C14_stof_no_spurious_partial', 'C14_accuracy_f32_partial', 'C14_accuracy_f64_partial'],
+    'partial': ['C14_stof_no_spurious_partial', 'C14_stof_no_spurious_exp_partial', 'C14_accuracy_partial'],
 }
 
 MANIFEST = {
     'text': 'Lean 4 theorems over an executable statement-by-statement model of ParseFloat (exact Rat arithmetic with an '
             'explicit round-to-nearest-even function), the integer parsers and stof/stod: no read past the NUL, end index = '
             'longest numeric prefix, locality, exact integers, invalid_argument iff no number, never inf from stof, no '
-            'spurious throw for inf/nan spellings and exponent-free decimals (partial), accuracy (partial). Character classes, '
+            'spurious throw (partial: inf/nan spellings, exponent-free decimals, and decimals with <= 19 fraction digits and exponent field <= 38/308), accuracy 1e-6/1e-14 by a forward error analysis over Rat (partial: same fragment; the scaling factors 10^E are checked for every E by kernel evaluation). Character classes, '
             'constants and step arithmetic regenerated from the source each run; model tied to the code by differential '
             'execution (bit patterns, end offsets, errno, exceptions) on a guard-paged buffer; independent oracle (glibc, '
             '__int128, exception table).',
